@@ -8,6 +8,8 @@ gen = ['Gen/CurveConsts.v', 'Gen/FfConsts.v', 'Gen/FfgConsts.v', 'Gen/GoldTables
       ['Gen/PoseidonT%d.v' % t for t in range(2, 18)]
 if any(f.startswith('Proofs/FfRoutinesEq') for f in files):
     gen += ['Gen/FfRoutines.v', 'Gen/FfgRoutines.v']
+if any(f.startswith('Proofs/FfMemEq') for f in files):
+    gen += ['Gen/FfMem.v', 'Gen/FfgMem.v']
 if any(f.startswith('Proofs/FfGlueEq') for f in files):
     gen += ['Gen/FfGlue.v', 'Gen/FfgGlue.v']
 if any(f.startswith('Proofs/AsmProofs') for f in files):
